@@ -252,13 +252,22 @@ func c18Compare(c *fw.Ctx, b *diffBase, scripts []c18Script, sr *rand.Rand, text
 			}
 		}
 	}
+	// the same program under a context that has already ended: with or without a stepper, whatever it answers, the
+	// evaluation stops with the same error and the same (absent) effects (seeded C18-m14: the deadline was only
+	// honoured while no stepper was being consulted)
+	if !b.ended && len(text)%4 == 0 && len(scripts) >= 4 {
+		b.ended = true
+		c.Count("programs_also_run_under_an_ended_context", 1)
+		c18Compare(c, b, scripts[:4], sr, text, shape+"/ended-context", genuinelyUnbound)
+		b.ended = false
+	}
 }
 
 func init() {
 	fw.Register(&fw.Property{
 		ID:     "C18",
 		Run:    runC18,
-		Rule:   "seeded programs of the C01 (core, 5% faults), C03 (try/catch/finally, Go errors) and C12 (macros, quasiquote, library macros) generators, each evaluated without a stepper and then under 16 (quick) / 40 (thorough) scripted Stepper callbacks (constant NoOp/Next/In/Out, alternating pairs, patterned and seeded random command sequences); result (modulo gensym names), error class, thrown value and the ordered trace must be identical; the callback must never receive a nil scope nor a symbol that does not resolve in the scope handed with it (generator-known unbound names excepted); distinct = program skeletons with non-empty trace; plus 18 long-running programs (4000-12000 tail calls, mutual recursion, deep non-tail recursion, swap! loops, try nests unwinding) under 8 scripts; every (trace! :k) form handed to the callback must be followed by its effect (a handed form is about to be evaluated); programs include (macroexpand (m (trace! :k) 1))",
+		Rule:   "seeded programs of the C01 (core, 5% faults), C03 (try/catch/finally, Go errors) and C12 (macros, quasiquote, library macros) generators, each evaluated without a stepper and then under 16 (quick) / 40 (thorough) scripted Stepper callbacks (constant NoOp/Next/In/Out, alternating pairs, patterned and seeded random command sequences); result (modulo gensym names), error class, thrown value and the ordered trace must be identical; the callback must never receive a nil scope nor a symbol that does not resolve in the scope handed with it (generator-known unbound names excepted); distinct = program skeletons with non-empty trace; plus 18 long-running programs (4000-12000 tail calls, mutual recursion, deep non-tail recursion, swap! loops, try nests unwinding) under 8 scripts; every (trace! :k) form handed to the callback must be followed by its effect (a handed form is about to be evaluated); programs include (macroexpand (m (trace! :k) 1)); a quarter of the programs are also run under a context cancelled beforehand, without a stepper and under the four constant scripts, with the same comparison",
 		Assume: []string{"single-threaded (the Stepper is process-wide by design)", "recursion depth of generated programs is small, stepping replaces the loop by recursion"},
 		Finish: func(m *fw.Merged) {
 			m.Floor("programs", 500)
